@@ -25,6 +25,25 @@ CLAIMED = {
          "exhaustively, <= 5 randomly; values of transcendental functions compared with the same libm function applied "
          "per element; concrete types only where the type implements the operator. Trusted: TLC, the Sym term builder.",
          "DESIGN.md section 4 C01"),
+ "C02": ("spec/stream/Lazy.tla + LazyC02.tla + trace/LazyTrace.tla",
+         "TLC model checking of the reading loop of every read-pattern class against the closed form Need(k) (no read at "
+         "construction, bounded and tight read, monotone so that the bound composes along chains) + real stages of every "
+         "class built over counting sources and compared with the exported bounds + TLC judgement of recorded read counts "
+         "for larger parameters and chains of 2-3 stages",
+         "13 read-pattern classes (sample-wise, blocks, skip/dropwhile, strided, limit, selection, takewhile, prefix, "
+         "overlap-add, pairwise, batched, resample) cover 104 public stage constructors (all 35 Stream operators, "
+         "Stream methods, lazy_itertools wrappers, LTI/time-varying/cascade/parallel filters, blocks, zero_pad, chunks, "
+         "stft, overlap_add, analysis tools, Streamix, elementwise functions on lazy inputs, modulo_counter/TableLookup/"
+         "sinusoid with stream arguments, resample). For every class x parameters x source (finite 0..7, endless) x "
+         "selection pattern TLC checks pulled = min(Need(k), source length) after k outputs and 0 at construction; every "
+         "real constructor of the class is then run on each case over a counting source (finite, endless with a step "
+         "budget) and its counter compared after construction and after each output; random larger parameters, up to "
+         "60-200 outputs, and chains of up to 3 stages are judged by TLC with Need composed along the chain.",
+         "Reading less than Need(k) is never an alarm; once a stage has ended only the source length bounds its reads "
+         "(limit: n); combinatoric itertools are not stream stages; a never-passing predicate on an endless source is "
+         "excluded; resample with a ratio whose denominator is not a power of two may read one item early (float "
+         "position). Trusted: TLC, the counting source.",
+         "DESIGN.md section 4 C02 and appendix B"),
  "C03": ("spec/stream/StreamHist.tla + StreamHistC03.tla + trace/StreamHistTrace.tla",
          "TLC exhaustive enumeration of method histories on a pull-machine model of Stream/tee/StreamTeeHub checked "
          "against an immutable list model (history-as-state) + replay of every enumerated history on real Stream "
@@ -53,6 +72,20 @@ CLAIMED = {
          "length <= 4 exhaustively, <= 24 randomly; memories of sufficient length. Trusted: TLC, LinForm "
          "(40 lines of Fraction arithmetic), the dump parser.",
          "DESIGN.md section 4 C04"),
+ "C16": ("spec/stream/Mixer.tla + trace/MixerTrace.tla",
+         "TLC model checking of the count/queue/playing machine of Streamix against the closed form (T_i = sum of deltas, "
+         "start = max(nearest(T_i), time added), sample = zero + items due, end = max(S_i + len_i)) over the full reachable "
+         "state graph under add/next interleaving plus exhaustive small histories + transition-cover replay on real "
+         "Streamix objects with symbolic items + TLC validation of recorded histories; ControlStream as a one-variable machine",
+         "Every transition of the model's reachable graph (histories of any length within <= 3 simultaneously live events, "
+         "six quarter-sample deltas, data lengths 0..3, keep on/off) is executed by the real code from the state the model "
+         "enables it in, with exact comparison on symbolic zero and items; histories of <= 3 events are checked exhaustively "
+         "against the absolute closed form (no drift); recorded histories of up to ~400 events with fractional deltas, late "
+         "and rejected additions and several zero types are judged by TLC.",
+         "Exact half-sample ties may start at either neighbouring sample (the statement says nearest; tie direction is "
+         "diagnostics only); no add() after the mixer ended; finite data; keep fixed at construction; non-dyadic deltas only "
+         "in M3. Trusted: TLC, LinForm.",
+         "DESIGN.md section 4 C16"),
  "C17": ("spec/io/AudioIO.tla (PlusCal) + trace/AudioIOTrace.tla + harness/sched.py",
          "TLC model checking of a PlusCal model of AudioIO/AudioThread over all interleavings (safety invariants + "
          "liveness of close under weak fairness) + deterministic scheduler that forces the real lazy_io (unmodified, "
